@@ -195,7 +195,8 @@ class CoherenceAnalyzer(BaseAnalyzer):
                 this_phase = self.phase[i, j]
                 #If requested, unwrap the phases:
                 if self._unwrap_phases:
-                    this_phase = tsu.unwrap_phases(this_phase)
+                    # unwrap_phases works in place: do not touch the cached phase
+                    this_phase = tsu.unwrap_phases(np.copy(this_phase))
 
                 delay[i, j] = this_phase / (2 * np.pi * self.frequencies)
 
